@@ -8,11 +8,17 @@ import (
 	"bytes"
 	"encoding/pem"
 	"fmt"
+	"io"
 
 	"github.com/foxboron/go-uefi/efi/signature"
 )
 
 func init() { families["esl"] = runEsl }
+
+// onlyWriter hides everything but Write (the package-level encoders take an io.Writer)
+type onlyWriter struct{ w io.Writer }
+
+func (o onlyWriter) Write(p []byte) (int, error) { return o.w.Write(p) }
 
 func fieldVal(v int) uint32 {
 	if v < 0 {
@@ -163,6 +169,20 @@ func runEsl(sc M) {
 		if agree && expect == "must_accept" {
 			if !bytes.Equal(db.Bytes(), in) {
 				agree, why = false, "re-encoding the decoded database does not reproduce the input"
+			}
+			// every spelling of the encoder: Marshal, the package-level writers over an io.Writer, list by list, entry by entry
+			var w1, w2, w3, w4 bytes.Buffer
+			db.Marshal(&w1)
+			signature.WriteSignatureDatabase(onlyWriter{&w2}, db)
+			for _, l := range db {
+				signature.WriteSignatureList(onlyWriter{&w3}, *l)
+				w4.Write(l.Bytes()[:28+int(l.HeaderSize)])
+				for _, s := range l.Signatures {
+					signature.WriteSignatureData(&w4, s)
+				}
+			}
+			if agree && (!bytes.Equal(w1.Bytes(), in) || !bytes.Equal(w2.Bytes(), in) || !bytes.Equal(w3.Bytes(), in) || !bytes.Equal(w4.Bytes(), in)) {
+				agree, why = false, fmt.Sprintf("encoder spellings disagree with the input: Marshal %d, WriteSignatureDatabase %d, WriteSignatureList %d, header+WriteSignatureData %d of %d bytes", w1.Len(), w2.Len(), w3.Len(), w4.Len(), len(in))
 			}
 		}
 		ev["nlists"] = len(db)
